@@ -6,6 +6,9 @@ import Anko.Model.Sexp
 import Anko.Model.Walk
 import Anko.Gen.AstSchema
 import Anko.Gen.Walker
+import Anko.Model.Codec
+import Anko.Model.BinOp
+import Anko.Model.FloatImpl
 
 open Anko
 
@@ -50,10 +53,75 @@ def handleWalk (args : List Sexp) : String :=
       s!"wf={wf} res={showWRes r.2} size={f.size} visited=" ++ " ".intercalate (r.1.map showPath)
   | _ => "bad-args"
 
+def showOpRes : OpRes → String
+  | .ok v => "ok " ++ encodeVal v
+  | .err m => "err " ++ m
+  | .unsupported => "unsupported"
+
+def handleOps (cmd : String) (args : List Sexp) : String :=
+  match cmd, args with
+  | "binop", [.atom op, a, b] =>
+    (match decodeRV a, decodeRV b with
+     | some x, some y => showOpRes (binop op x y)
+     | _, _ => "bad-args")
+  | "unop", [.atom op, a] =>
+    (match decodeRV a with
+     | some x => showOpRes (unop op x)
+     | _ => "bad-args")
+  | "in", [a, b] =>
+    (match decodeRV a, decodeRV b with
+     | some x, some y => showOpRes (inOp x y)
+     | _, _ => "bad-args")
+  | "switch", [a, b] =>
+    (match decodeRV a, decodeRV b with
+     | some x, some y => showOpRes (switchMatch x y)
+     | _, _ => "bad-args")
+  | _, _ => "bad-op"
+
+/-- `(v RV) | (bin op T T) | (un op T)`: operands evaluated left to right, `&&`/`||` short-circuit. -/
+partial def evalTree : Sexp → Option OpRes
+  | .list [.atom "v", x] => (decodeRV x).map (fun r => OpRes.ok r.v) |>.map (fun r => r)
+  | .list [.atom "un", .atom op, t] =>
+    match evalTreeRV t with
+    | some (.inl x) => some (unop op x)
+    | some (.inr e) => some e
+    | none => none
+  | .list [.atom "bin", .atom op, a, b] =>
+    match evalTreeRV a with
+    | some (.inl x) =>
+      if op == "&&" || op == "||" then
+        match toBool x.unwrap.v with
+        | none => some .unsupported
+        | some lb =>
+          if (op == "||" && lb) then some (.ok (.bool true))
+          else if (op == "&&" && !lb) then some (.ok (.bool false))
+          else match evalTreeRV b with
+            | some (.inl y) => some (binop op x y)
+            | some (.inr e) => some e
+            | none => none
+      else
+        match evalTreeRV b with
+        | some (.inl y) => some (binop op x y)
+        | some (.inr e) => some e
+        | none => none
+    | some (.inr e) => some e
+    | none => none
+  | _ => none
+where
+  evalTreeRV (t : Sexp) : Option (Sum RV OpRes) :=
+    match t with
+    | .list [.atom "v", x] => (decodeRV x).map Sum.inl
+    | t => match evalTree t with
+      | some (.ok v) => some (.inl (RV.plain v))
+      | some e => some (.inr e)
+      | none => none
+
 def handle (line : String) : String :=
   match Sexp.parse line with
   | none => "bad-sexp"
   | some (.list (.atom "walk" :: args)) => handleWalk args
+  | some (.list [.atom "tree", t]) => (match evalTree t with | some r => showOpRes r | none => "bad-args")
+  | some (.list (.atom cmd :: args)) => handleOps cmd args
   | some _ => "bad-op"
 
 partial def loop (h : IO.FS.Stream) (out : IO.FS.Stream) : IO Unit := do
